@@ -300,7 +300,7 @@ pub fn cmd_corpus(args: &[String]) -> i32 {
                            "bytes_iter","str_iter","array","map","tag","datatype","skip"];
     // (1) untyped inputs: generated well-formed items (with halves, nested indefinite containers, chunked strings), their mutations and
     //     prefixes, random bytes - through every accessor, the tokenizer, the display and the bridge's self-describing paths
-    let nitems = if thorough { 12000 } else { 1500 };
+    let nitems = if thorough { 40000 } else { 1500 };
     for i in 0..nitems {
         let o = Opts { max_depth: 6, max_nodes: if i % 10 == 0 { 80 } else { 16 }, bad_utf8: i % 9 == 0, ..Opts::default() };
         let it = gen_item(&mut rng, &o);
@@ -349,7 +349,7 @@ pub fn cmd_corpus(args: &[String]) -> i32 {
     } } }
     // (3) typed values: the encoding of random values of every built-in instantiation and every serde family type, re-framed and
     //     mutated, decoded (and re-encoded / sized) as that type
-    let nvals = if thorough { 40 } else { 6 };
+    let nvals = if thorough { 120 } else { 6 };
     let mut typed: Vec<(String, String, Vec<u8>)> = Vec::new();
     {
         let dir = format!("{}.scratch", path);
